@@ -435,6 +435,17 @@ func applyVariant(t int, v string, f []sim.F) ([]sim.F, error) {
 	if v == "extra" {
 		return append(f, sim.Fld(999, []byte("unknown field"))), nil
 	}
+	if v == "self" {
+		// the request names the requester's own account
+		switch t {
+		case 351, 353:
+			return setField(f, sim.FUserLogin, sim.Obfuscate([]byte("req"))), nil
+		case 352:
+			return setField(f, sim.FUserLogin, []byte("req")), nil
+		case 349:
+			return f, nil // built by baseReq
+		}
+	}
 	if v == "orphan" || (t == 112 && v == "chat") {
 		return f, nil // the world differs, not the request
 	}
@@ -676,6 +687,8 @@ func (h *hworld) baseReq(t int, k, variant string) ([]sim.F, error) {
 			return []sim.F{subCreate("newacct", zero)}, nil
 		case "modify":
 			switch variant {
+			case "self":
+				return []sim.F{subModify("req")}, nil
 			case "nopw":
 				var z [8]byte
 				return []sim.F{sim.Fld(sim.FData, encSub(sim.Fld(sim.FUserLogin, sim.Obfuscate([]byte("victim"))),
@@ -687,8 +700,14 @@ func (h *hworld) baseReq(t int, k, variant string) ([]sim.F, error) {
 			}
 			return []sim.F{subModify("victim")}, nil
 		case "rename":
+			if variant == "self" {
+				return []sim.F{subRename("req", "req2")}, nil
+			}
 			return []sim.F{subRename("victim", "victim2")}, nil
 		case "delete":
+			if variant == "self" {
+				return []sim.F{subDelete("req")}, nil
+			}
 			return []sim.F{subDelete("victim")}, nil
 		case "modify+create":
 			return []sim.F{subModify("victim"), subCreate("newacct", zero)}, nil
